@@ -48,6 +48,9 @@ def plan(tier, seed):
         for mat in mats:
             for amp in (0.0, 0.15):
                 cases.append(dict(key=f"balance/{lab}/{mem}/{mat}/amp={amp}", kind="balance", mesh=mk, member=mem, fk=fk, mat=mat, amp=amp, seed=seed, cost=3))
+    # the condensed (nearly-incompressible) body: balance of its nodal forces after every call history on ONE body
+    for fk, mk in (("3d", "hexahedron"), ("ps", "quad"), ("axi", "quad")):
+        cases.append(dict(key=f"balance-condensed/{fk}", kind="balance-ni", mesh=mk, member="renum", fk=fk, amp=0.12, seed=seed, cost=4))
     for (lab, mk, mem, fk) in MIXED_FIELDS:
         cases.append(dict(key=f"balance-{lab}/{mem}", kind="balance-mixed", mesh=mk, member=mem, fk=fk, amp=0.1, seed=seed, cost=3))
     for (lab, mk, mem, fk) in SOLID_FIELDS:
@@ -141,6 +144,43 @@ def run(case):
                     M = (arm[:, 0] * f[:, 1] - arm[:, 1] * f[:, 0]).sum()
                 c.close(f"moment/{lab}", "total moment of the internal nodal forces", M, 0 * np.asarray(M), scale * len(f) * max(1.0, np.abs(x - x0).max()))
         return c.result(dict(case=case["key"], nodes=int(len(f)), max_force=float(scale)))
+    if kind == "balance-ni":
+        mesh, region, field = make_field(case["mesh"], case["member"], case["fk"], seed)
+        hm = set_state(field, mesh, case["amp"], seed)
+        nd = mesh.dim
+        UA = field.fields[0].values.copy()
+        UB = UA * -0.7 + 0.3 * hm * zoo.offarr(seed, 1013, UA.shape)
+        ops = [(w, X) for w in ("vector", "matrix", "gradient", "cauchy_stress") for X in ("A", "B")] + [("vector", None)]
+        nh = 0
+        for d_ in (1, 2, 3):
+            for seq in itertools.product(range(len(ops)), repeat=d_):
+                if ops[seq[-1]][0] != "vector":
+                    continue
+                field.fields[0].values[:] = UA
+                body = fem.SolidBodyNearlyIncompressible(fem.NeoHooke(mu=1.0), field, bulk=20.0)
+                for k in seq:
+                    w, X = ops[k]
+                    fn = getattr(body.assemble if w in ("vector", "matrix") else body.evaluate, w)
+                    if X is not None:
+                        field.fields[0].values[:] = UA if X == "A" else UB
+                        got = fn(field)
+                    else:
+                        got = fn()
+                    c.trans += 1
+                f = nodal(field, got.toarray()[:, 0])
+                scale = max(np.abs(f).max(), 1e-12)
+                lab = "history=" + " > ".join(f"{ops[i][0]}({'field@' + ops[i][1] if ops[i][1] else ''})" for i in seq)
+                if case["fk"] == "axi":
+                    c.close(lab + "/sum-axial", "sum of the nodal forces of the condensed body, axial component", f[:, 0].sum(), 0.0, scale * len(f))
+                else:
+                    x = mesh.points + field.fields[0].values
+                    c.close(lab + "/sum", "sum of the nodal forces of the condensed body", f.sum(0), np.zeros(nd), scale * len(f))
+                    arm = x - np.arange(1, nd + 1) * 0.7
+                    M = np.cross(arm, f).sum(0) if nd == 3 else (arm[:, 0] * f[:, 1] - arm[:, 1] * f[:, 0]).sum()
+                    c.close(lab + "/moment", "total moment of the nodal forces of the condensed body (about a shifted point)", M, 0 * np.asarray(M), scale * len(f) * max(1.0, np.abs(arm).max()))
+                nh += 1
+        c.outcomes.add(f"condensed-histories={nh}")
+        return c.result(dict(case=case["key"], histories=nh))
     if kind == "bodyforce":
         mesh, region, field = make_field(case["mesh"], case["member"], case["fk"], seed)
         set_state(field, mesh, case["amp"], seed)
